@@ -389,6 +389,10 @@ def finalOpLeg (e : Entry) : BitVec 32 :=
   else if e.enc == 0x14 then addPrefixBySize e.mainOp (kindSize k0)                                                        -- X86Rm
   else if e.enc == 0x17 then addPrefixBySize e.mainOp (kindSize k1)                                                        -- X86Mr
   else if e.enc == 0x21 then addPrefixBySize 0x1AF#32 (kindSize k0)                                                        -- X86Imul reg, reg (0F AF /r)
+  else if e.enc == 0x2c then                                                                                                -- X86Mov, control / debug registers
+    (match k0, k1 with
+     | .gpq, .creg => 0x120#32 | .creg, .gpq => 0x122#32 | .gpq, .dreg => 0x121#32 | .dreg, .gpq => 0x123#32 | _, _ => e.mainOp)
+  else if e.enc == 0x56 then (match e.rule.ops with | f0 :: _ => if f0.role == .rm then e.altOp else e.mainOp | _ => e.mainOp)   -- ExtMov: store form = alternative opcode
   else e.mainOp
 
 def legRuleOk (r : Rule) (nimm pp : Nat) : Bool :=
@@ -418,7 +422,7 @@ theorem legAgreeOk_spec (r : Rule) (op : BitVec 32) (h : legAgreeOk r op = true)
 def entryOkLrm (e : Entry) : Bool :=
   match e.rule.ops, e.kinds with
   | [f0, f1], [k0, k1] =>
-    (e.enc == 0x4A || e.enc == 0x4D || e.enc == 0x14 || e.enc == 0x16 || e.enc == 0x21) &&
+    (e.enc == 0x4A || e.enc == 0x4D || e.enc == 0x14 || e.enc == 0x16 || e.enc == 0x21 || e.enc == 0x56 || e.enc == 0x2c) &&
     (legRuleOk e.rule 0 ((finalOpLeg e >>> 21) &&& 3#32).toNat && (legAgreeOk e.rule (finalOpLeg e) &&
     (f0.role == .reg && (f1.role == .rm && shapeOk2 e.rule f0 f1 k0 k1))))
   | _, _ => false
@@ -426,7 +430,7 @@ def entryOkLrm (e : Entry) : Bool :=
 def entryOkLmr (e : Entry) : Bool :=
   match e.rule.ops, e.kinds with
   | [f0, f1], [k0, k1] =>
-    (e.enc == 0x17 || e.enc == 0x18) &&
+    (e.enc == 0x17 || e.enc == 0x18 || e.enc == 0x56 || e.enc == 0x2c) &&
     (legRuleOk e.rule 0 ((finalOpLeg e >>> 21) &&& 3#32).toNat && (legAgreeOk e.rule (finalOpLeg e) &&
     (f0.role == .rm && (f1.role == .reg && shapeOk2 e.rule f0 f1 k0 k1))))
   | _, _ => false
